@@ -14,10 +14,9 @@ The main definitions transcribe the REPAIRED code:
   * `AdjustArgs` drops the leading `""` marker written by `UpdateArgs`
     (/repo commit ad4e689 "fix: strip the UpdateArgs() replace marker");
   * `AdjustEnv`, `AdjustDevices`, `AdjustMounts` process every removal before any set
-    (candidate patch docs/fixes/C13-1.patch, not yet in /repo).
-The `…Unfixed` definitions transcribe the code before each of these repairs (for the list
-families: the code as it stands in /repo); they are used by the `unfixed_*` witness theorems
-and by the driver's diagnosis.
+    (/repo commit 6eaf34c "fix: process removals before additions of env, devices and mounts").
+The `…Unfixed` definitions transcribe the code before each of these repairs; they are used by
+the `unfixed_*` witness theorems and by the driver's diagnosis.
 
 One function per field family, each a record update of `Oci.Spec` built from a *core*
 function on the field alone (`Annotations.apply`, `Env.apply`, `Devices.apply`,
@@ -85,13 +84,19 @@ def removals (ann : AList Str Str) (entries : List (Str × Str)) : AList Str Str
 def sets (ann : AList Str Str) (entries : List (Str × Str)) : AList Str Str :=
   entries.foldl (fun m e => if isMarked e.1 then m else AList.insert m e.1 e.2) ann
 
-/-- Repaired `AdjustAnnotations` on the annotation map; `entries` is the adjustment's map in
-    the order the two `range` loops happen to yield it (the same list is used for both loops
-    only for simplicity: `Lemmas` show that neither pass depends on the order). -/
+/-- Repaired `AdjustAnnotations` on the annotation map when both `range` loops yield the map in
+    the same order `entries` (the executable form used by `adjust`; see `applyOrders`). -/
 def apply (ann : AList Str Str) (entries : List (Str × Str)) : AList Str Str :=
   sets (removals ann entries) entries
 
-/-- `AdjustAnnotations` as it stands: ONE loop, each entry removed or set as it comes. -/
+/-- Repaired `AdjustAnnotations` as Go really runs it: the two `for … range annotations` loops
+    draw two INDEPENDENT iteration orders `π1` (removal loop) and `π2` (set loop) of the same
+    map.  `apply ann E = applyOrders ann E E`; `Lemmas/GenerateAnnotations.lean` shows that
+    every pair of orders gives the same map (`lookup_applyOrders`). -/
+def applyOrders (ann : AList Str Str) (π1 π2 : List (Str × Str)) : AList Str Str :=
+  sets (removals ann π1) π2
+
+/-- `AdjustAnnotations` before commit 1f50159: ONE loop, each entry removed or set as it comes. -/
 def applyUnfixed (ann : AList Str Str) (entries : List (Str × Str)) : AList Str Str :=
   entries.foldl
     (fun m e => if isMarked e.1 then AList.erase m (stripMarker e.1) else AList.insert m e.1 e.2) ann
@@ -102,7 +107,7 @@ end Annotations
 def adjustAnnotations (s : Spec) (entries : AList Str Str) : Spec :=
   { s with annotations := Annotations.apply s.annotations entries }
 
-/-- `Generator.AdjustAnnotations` at the pinned commit, for the iteration order `entries`. -/
+/-- `Generator.AdjustAnnotations` at the original snapshot (before the repair), for the iteration order `entries`. -/
 def adjustAnnotationsUnfixed (s : Spec) (entries : AList Str Str) : Spec :=
   { s with annotations := Annotations.applyUnfixed s.annotations entries }
 
@@ -130,7 +135,7 @@ def addProcessEnv (acc : AList Str Str) (name value : Str) : AList Str Str :=
 /-- `Config.Process.Env` of a generator state. -/
 def render (acc : AList Str Str) : List Str := acc.map (fun e => e.1 ++ '=' :: e.2)
 
-/-- The `mod` map of `AdjustEnv` at the pinned commit: stripped key ↦ LAST entry for it. -/
+/-- The `mod` map of `AdjustEnv` at the original snapshot (before the repair): stripped key ↦ LAST entry for it. -/
 def modUnfixed (env : List KeyValue) : AList Str KeyValue :=
   env.foldl (fun m e => AList.insert m (stripMarker e.key) e) []
 
@@ -171,7 +176,7 @@ def applyWith (md : AList Str KeyValue) (old : List Str) (env : List KeyValue) :
 /-- Repaired `AdjustEnv` on `Config.Process.Env`. -/
 def apply (old : List Str) (env : List KeyValue) : List Str := applyWith (mod env) old env
 
-/-- `AdjustEnv` at the pinned commit. -/
+/-- `AdjustEnv` at the original snapshot (before the repair). -/
 def applyUnfixed (old : List Str) (env : List KeyValue) : List Str :=
   applyWith (modUnfixed env) old env
 
@@ -192,7 +197,7 @@ end Env
 /-- `Generator.AdjustEnv` (repaired). -/
 def adjustEnv (s : Spec) (env : List KeyValue) : Spec := { s with env := Env.apply s.env env }
 
-/-- `Generator.AdjustEnv` at the pinned commit. -/
+/-- `Generator.AdjustEnv` at the original snapshot (before the repair). -/
 def adjustEnvUnfixed (s : Spec) (env : List KeyValue) : Spec :=
   { s with env := Env.applyUnfixed s.env env }
 
@@ -205,14 +210,14 @@ def apply (old : List Str) (args : List Str) : List Str :=
   let args := match args with | [] :: r => r | a => a
   if args.isEmpty then old else args
 
-/-- `AdjustArgs` at the pinned commit: any non-empty list replaces the command line as is. -/
+/-- `AdjustArgs` at the original snapshot (before the repair): any non-empty list replaces the command line as is. -/
 def applyUnfixed (old : List Str) (args : List Str) : List Str :=
   if args.isEmpty then old else args
 end Args
 
 /-- `Generator.AdjustArgs` (repaired). -/
 def adjustArgs (s : Spec) (args : List Str) : Spec := { s with args := Args.apply s.args args }
-/-- `Generator.AdjustArgs` at the pinned commit. -/
+/-- `Generator.AdjustArgs` at the original snapshot (before the repair). -/
 def adjustArgsUnfixed (s : Spec) (args : List Str) : Spec :=
   { s with args := Args.applyUnfixed s.args args }
 
@@ -317,7 +322,7 @@ def adjustDevices (s : Spec) (L : List LinuxDevice) : Spec :=
   let st := Devices.apply (s.devices, s.devRules) L
   { s with devices := st.1, devRules := st.2 }
 
-/-- `Generator.AdjustDevices` at the pinned commit. -/
+/-- `Generator.AdjustDevices` at the original snapshot (before the repair). -/
 def adjustDevicesUnfixed (s : Spec) (L : List LinuxDevice) : Spec :=
   let st := Devices.applyUnfixed (s.devices, s.devRules) L
   { s with devices := st.1, devRules := st.2 }
@@ -544,7 +549,7 @@ def sets (hostProp : Str → Str) : State → List Api.Mount → Except GenError
       | .ok st' => sets hostProp st' r
       | .error e => .error e
 
-/-- The loop of `AdjustMounts` at the pinned commit: marked entries remove, others set, in
+/-- The loop of `AdjustMounts` at the original snapshot (before the repair): marked entries remove, others set, in
     list order. -/
 def loopUnfixed (hostProp : Str → Str) : State → List Api.Mount → Except GenError State
   | st, [] => .ok st
@@ -565,7 +570,7 @@ def apply (hostProp : Str → Str) (ms : List Oci.Mount) (rootfs : Str) (L : Lis
     | .ok st => .ok (sortMounts st.mounts, st.rootfs)
     | .error e => .error e
 
-/-- `AdjustMounts` at the pinned commit. -/
+/-- `AdjustMounts` at the original snapshot (before the repair). -/
 def applyUnfixed (hostProp : Str → Str) (ms : List Oci.Mount) (rootfs : Str) (L : List Api.Mount) :
     Except GenError (List Oci.Mount × Str) :=
   if L.isEmpty then .ok (ms, rootfs)
@@ -581,7 +586,7 @@ def adjustMounts (ext : Externals) (s : Spec) (L : List Api.Mount) : Except GenE
   | .ok r => .ok { s with mounts := r.1, rootfsPropagation := r.2 }
   | .error e => .error e
 
-/-- `Generator.AdjustMounts` at the pinned commit. -/
+/-- `Generator.AdjustMounts` at the original snapshot (before the repair). -/
 def adjustMountsUnfixed (ext : Externals) (s : Spec) (L : List Api.Mount) : Except GenError Spec :=
   match Mounts.applyUnfixed ext.hostPropagation s.mounts s.rootfsPropagation L with
   | .ok r => .ok { s with mounts := r.1, rootfsPropagation := r.2 }
@@ -607,6 +612,27 @@ def adjust (ext : Externals) (s : Spec) (a : Adjustment) : Except GenError Spec 
   let s ← adjustMounts ext s a.mounts
   pure (adjustRlimits s a.rlimits)
 
+/-- `Generator.Adjust` with every Go map iteration made explicit: `π1`, `π2` are the orders in
+    which the removal loop and the set loop of `AdjustAnnotations` see the annotation map, `σ`
+    the order in which `AdjustResources` sees the unified map (all other inputs are slices).
+    `adjust ext s a` is the instance `π1 = π2 = a.annotations`, `σ =` the unified list as given
+    (`Lemmas/GenerateFrame.lean`). -/
+def adjustOrders (ext : Externals) (s : Spec) (a : Adjustment) (π1 π2 σ : List (Str × Str)) :
+    Except GenError Spec := do
+  let s := { s with annotations := Annotations.applyOrders s.annotations π1 π2 }
+  let s := adjustEnv s a.env
+  let s := adjustArgs s a.args
+  let s := adjustHooks s a.hooks
+  let s ← injectCDI ext s a.cdiDevices
+  let s := adjustDevices s a.linuxDevices
+  let s := adjustCgroupsPath s a.cgroupsPath
+  let s := adjustOomScoreAdj s a.oomScoreAdj
+  let s := adjustResources s (match a.resources with | some r => some { r with unified := σ } | none => none)
+  let s ← adjustBlockIOClass ext s a.blockioClass
+  let s ← adjustRdtClass ext s a.rdtClass
+  let s ← adjustMounts ext s a.mounts
+  pure (adjustRlimits s a.rlimits)
+
 /-- `Generator.Adjust` before any of the repairs (annotations iterated in the order given). -/
 def adjustUnfixed (ext : Externals) (s : Spec) (a : Adjustment) : Except GenError Spec := do
   let s := adjustAnnotationsUnfixed s a.annotations
@@ -623,8 +649,8 @@ def adjustUnfixed (ext : Externals) (s : Spec) (a : Adjustment) : Except GenErro
   let s ← adjustMountsUnfixed ext s a.mounts
   pure (adjustRlimits s a.rlimits)
 
-/-- `Generator.Adjust` as it stands in /repo after commits 1f50159 and ad4e689 but before
-    docs/fixes/C13-1.patch: annotations and args repaired, list families not. -/
+/-- `Generator.Adjust` as it stood after commits 1f50159 and ad4e689 but before 6eaf34c:
+    annotations and args repaired, list families not. -/
 def adjustListsUnfixed (ext : Externals) (s : Spec) (a : Adjustment) : Except GenError Spec := do
   let s := adjustAnnotations s a.annotations
   let s := adjustEnvUnfixed s a.env
